@@ -30,16 +30,39 @@ def load_known(pid):
     return {e["site"]: e for e in items if e.get("property") == pid and e.get("status") == "known"}
 
 
+class ShapeTimeout(BaseException):
+    """Raised by SIGALRM inside a worker: a work item that does not come back gets no verdict instead of hanging the check."""
+
+
 def _worker(args):
     modname, shape, tier = args
     mod = importlib.import_module(modname)
     from . import symx
     t0 = time.time()
     before = dict(symx.RECHECK)
+    import signal
+
+    def _alarm(signum, frame):
+        raise ShapeTimeout()
+
+    limit = int(os.environ.get("VERIF_SHAPE_TIMEOUT", "1500" if tier == "quick" else "5400"))
+    try:
+        signal.signal(signal.SIGALRM, _alarm)
+        signal.alarm(limit)
+    except ValueError:  # not in the main thread of the worker
+        pass
     try:
         r = mod.run_shape(shape, tier)
+    except ShapeTimeout:
+        # the library (or the harness) did not come back - e.g. an iterable that never ends: no verdict for this work item
+        r = {"status": INCONCLUSIVE, "detail": f"work item exceeded the wall-clock limit of {limit} s (no verdict)", "inconclusive": 1}
     except BaseException as e:  # noqa: BLE001 - a harness crash must be visible, never a pass
         r = {"status": HARNESS, "detail": f"{type(e).__name__}: {e}", "trace": traceback.format_exc()[-1500:]}
+    finally:
+        try:
+            signal.alarm(0)
+        except ValueError:
+            pass
     r.setdefault("shape", shape if isinstance(shape, (str, int)) else None)
     r["wall_s"] = round(time.time() - t0, 3)
     delta = {k: v - before.get(k, 0) for k, v in symx.RECHECK.items() if v - before.get(k, 0)}
